@@ -410,8 +410,15 @@ def _pop_line_before_zid(words: list[str]) -> str:
 
     symbol = words.pop(0)
 
+    # Only todos have a priority: a note like "- P1 ..." merely starts with a
+    # word that looks like one (that word belongs to the note's body).
     priority = ""
-    if len(words[0]) == 2 and words[0][0] == "P" and words[0][1].isdigit():
+    if (
+        symbol != "-"
+        and len(words[0]) == 2
+        and words[0][0] == "P"
+        and words[0][1].isdigit()
+    ):
         priority = f"{words.pop(0)} "
     return f"{spaces}{symbol} {priority}"
 
